@@ -35,6 +35,8 @@ class Engine:
         self.stack = []          # persistent across paths: [chosen_index, [remaining], multi]
         self.n_feas = 0          # feasibility queries
         self.n_prop = 0          # property queries
+        self.n_prop_solver = 0   # ... of which needed the solver (the rest was decided by z3's simplifier)
+        self.n_unsat = 0
         self.solver_s = 0.0
         self.n_solver = 0        # actual solver calls (the rest was answered by the cached model)
         self.cur_model = None
@@ -46,6 +48,8 @@ class Engine:
         self.exact_width = False
         self.hash_collide = False
         self.sampled = None          # set when an unbounded value was concretised by sampling (run is incomplete)
+        self.cross_every = 0         # re-discharge every n-th solver-decided property query with cvc5 (0 = off)
+        self.cross = {'checked': 0, 'agree': 0, 'disagree': [], 'errors': 0, 'cvc5_s': 0.0}
         self.symbolic = True
 
     # ------------------------------------------------------------------ per path
@@ -74,6 +78,23 @@ class Engine:
             self.solver_s += time.time() - t
         if r == z3.unknown:
             raise Unsupported('solver returned unknown: ' + self.solver.reason_unknown())
+        if r == z3.unsat and extra is not None and self.cross_every:
+            # a wrong 'unsat' here would prune a real path: a sample of the pruning verdicts gets a second opinion too
+            self.n_unsat += 1
+            if self.n_unsat % (4 * self.cross_every) == 0:
+                t1 = time.time()
+                try:
+                    v = cvc5_verdict(self.solver, extra)
+                except Exception:       # noqa
+                    v = 'error'
+                self.cross['cvc5_s'] += time.time() - t1
+                self.cross['checked'] += 1
+                if v == 'unsat':
+                    self.cross['agree'] += 1
+                elif v == 'sat':
+                    self.cross['disagree'].append('branch pruned by z3 is satisfiable for cvc5')
+                else:
+                    self.cross['errors'] += 1
         return r == z3.sat
 
     def _holds(self, cond):
@@ -237,6 +258,34 @@ class Engine:
             return m
         self.cur_model = keep
         return None
+
+
+def cvc5_verdict(solver, extra, timeout_ms=20000):
+    """sat / unsat / unknown of (assertions of the z3 solver) AND extra, decided by cvc5 from the SMT-LIB2 dump"""
+    import cvc5
+    solver.push()
+    try:
+        solver.add(extra)
+        text = solver.to_smt2()
+    finally:
+        solver.pop()
+    slv = cvc5.Solver()
+    slv.setOption('tlimit-per', str(timeout_ms))
+    slv.setLogic('QF_BV')
+    parser = cvc5.InputParser(slv)
+    parser.setStringInput(cvc5.InputLanguage.SMT_LIB_2_6, text, 'query')
+    sm = parser.getSymbolManager()
+    verdict = 'unknown'
+    while True:
+        cmd = parser.nextCommand()
+        if cmd.isNull():
+            break
+        out = str(cmd.invoke(slv, sm)).strip()
+        if out in ('sat', 'unsat', 'unknown'):
+            verdict = out
+        elif out.startswith('(error'):
+            return 'error'
+    return verdict
 
 
 def as_bool(c):
